@@ -155,6 +155,19 @@ def run(ctx):
     Xs = rng.normal(size=(30, 3)).astype(np.float32)
     A = umap.UMAP(n_neighbors=5, n_epochs=5, random_state=1).fit(Xs)
     Bsmall = umap.UMAP(n_neighbors=5, n_epochs=5, random_state=1).fit(Xs[:25])
+    # unique=True on data with repeated rows: as many embedding rows as the other operand, fewer graph vertices
+    Xd = Xs.copy()
+    Xd[20:25] = Xd[:5]
+    Auniq = umap.UMAP(n_neighbors=5, n_epochs=5, random_state=1, unique=True).fit(Xd)
+    for opn, fn in (("add", lambda p, q: p + q), ("mul", lambda p, q: p * q), ("sub", lambda p, q: p - q)):
+        for l_, r_, tag in ((A, Auniq, "plain, unique"), (Auniq, A, "unique, plain")):
+            try:
+                fn(l_, r_)
+                ctx.violation("error-case", f"{opn} of models over {A.graph_.shape[0]} and {Auniq.graph_.shape[0]} distinct samples ({tag}; equal numbers "
+                                            f"of input rows) did not raise", {"op": opn, "operands": tag})
+            except Exception:  # noqa
+                pass
+            ctx.case(key="err-unique" + opn + tag, nontrivial=True, part="errors")
     for opn, fn in (("add", lambda p, q: p + q), ("mul", lambda p, q: p * q), ("sub", lambda p, q: p - q)):
         for other, why in ((Bsmall, "different number of samples"), (umap.UMAP(), "unfitted operand")):
             for l, r in ((A, other), (other, A)):
